@@ -250,6 +250,9 @@ func c07HasHdr(set []c07Route) bool {
 func c07Paths(thorough bool) []string {
 	alpha := []string{"/", "a", "%", "2", "F", "z", "\x00", "\xff", "{", "?", "."}
 	n := 3
+	if thorough {
+		n = 4
+	}
 	tails := append([]string{""}, stringsOver(alpha, n)...)
 	prefixes := []string{"", "/", "/a/", "/a/b/c/d/e/"}
 	if thorough {
@@ -271,7 +274,7 @@ func c07Run(r *core.Run) {
 		r.SetBudget(10 * time.Minute)
 	}
 	paths := c07Paths(r.Thorough())
-	r.Rule = fmt.Sprintf("engine E: %d route sets (", len(c07Sets)) + "each segment kind alone and mixed, capture-limited match-alls, optional, header-constrained, multi-method, regex-active literals, empty) x NotFound {default, user chain} x application middleware {absent, present} x 6 method strings (incl. lower-case, unknown and empty) x every byte string of length <=3 over {/ a % 2 F z NUL 0xff { ? .} appended to 4-7 prefixes plus three 64 KiB paths x header sets; oracle: no panic, the application middleware starts exactly once, the chain that runs is the one the reference priority picks (or not-found), and the request served three times gives identical observations; non-trivial = request whose path contains a byte outside [a-z/] or whose method is unknown"
+	r.Rule = fmt.Sprintf("engine E: %d route sets (", len(c07Sets)) + "each segment kind alone and mixed, capture-limited match-alls, optional, header-constrained, multi-method, regex-active literals, empty) x NotFound {default, user chain} x application middleware {absent, present} x 6 method strings (incl. lower-case, unknown and empty) x every byte string of length <=3 (thorough 4) over {/ a % 2 F z NUL 0xff { ? .} appended to 4-7 prefixes plus three 64 KiB paths x header sets; oracle: no panic, the application middleware starts exactly once, the chain that runs is the one the reference priority picks (or not-found), and the request served three times gives identical observations; non-trivial = request whose path contains a byte outside [a-z/] or whose method is unknown"
 	r.Bounds["paths"] = len(paths)
 	r.Bounds["route_sets"] = len(c07Sets)
 	r.Bounds["methods"] = c07Methods
